@@ -48,6 +48,8 @@ def run(ctx):
     cs += msgev.random_cases(schema, ctx.rnd, 4000 if quick else 80000)
     # payload / container lengths sweeping across the 1->2 and 2->3 byte length-prefix boundaries (and 3->4 in thorough)
     cs += msgev.size_boundary_cases(schema, (127, 16383) if quick else (127, 16383, 2097151), (-8, 3) if quick else (-12, 4))
+    msgev.gen_world()
+    cs += msgev.as_generated([c for k, c in enumerate(msgev.boundary_cases(schema)) if not quick or k % 3 == 0])
     events = ctx.pmap(msgev.rt_event, cs)
     for e, c in zip(events, cs):
         e["op"] = "len"
